@@ -51,9 +51,13 @@ def all_instances():
     return out
 
 
-def check_metadata(fam, arg):
+ELDERS = (("rastrigin", 12), ("xsquared", 12), ("gkls", (5, 1)))     # larger members of the sized families
+
+
+def check_metadata(fam, arg, elders=()):
+    kept = [bench.construct(f, a) for f, a in elders]      # built first and kept alive: a construction history
     p = bench.construct(fam, arg)
-    who = "%s(%r): " % (fam, arg)
+    who = "%s(%r)%s: " % (fam, arg, " built after %r" % (list(elders),) if elders else "")
     n = p.numberOfFloatVariables
     dim = getattr(p, "dimension", n)
     if not isinstance(n, (int, np.integer)) or n < 1:
@@ -150,6 +154,8 @@ def metadata(ctx):
             n = _guard(check_metadata, fam, arg)
             if fam != "grishagin" or arg % 10 == 1 or ctx.tier == "thorough":    # Grishagin construction is slow
                 _guard(check_independence, fam, arg)
+            if fam in ("rastrigin", "xsquared", "gkls", "shekel4", "stronginC3"):
+                _guard(check_metadata, fam, arg, ELDERS)     # the same record after larger instances were built
         except Violation as v:
             ctx.violation({"family": fam, "arg": arg}, str(v))
             continue
@@ -263,6 +269,7 @@ def replay(kind, case):
         check_independence(case["family"], tuple(case["arg"]) if isinstance(case["arg"], list) else case["arg"])
         arg = case["arg"]
         check_metadata(case["family"], tuple(arg) if isinstance(arg, list) else arg)
+        check_metadata(case["family"], tuple(arg) if isinstance(arg, list) else arg, ELDERS)
     else:
         import iOpt.problems.Hill.hill_generation as hg
         import iOpt.problems.Shekel.shekel_generation as sg
